@@ -15,11 +15,29 @@ block headers) and is independent of the Coq model.
 """
 import array
 import binascii
+import os
 import struct
+import sys
+import time
 
+import common
 from common import cZ, cN, cnat, cbool, clist, cbytes
 
+sys.path.insert(0, os.path.join(os.path.dirname(os.path.abspath(__file__)), "translators"))
+import t_c15_apt as T  # noqa: E402
+
 THEORY = "C15"
+GEN = os.path.join(common.COQ, "gen", "C15AptLayouts.v")
+
+# Field layouts of the APT packets as documented in the Thorlabs APT communications protocol (word =
+# uint16, short = int16, dword = uint32, long = int32, char; little-endian, packed).  Pinned here
+# independently of the code: for these packets the oracle decodes with this table, so a changed
+# field type / order in apt_packets.py shows up as a wrong field value for a concrete reply.
+APT_SPEC = {
+    "HW_GET_INFO": "<i8sHI15IHHH", "MOD_GET_CHANENABLESTATE": "<HBBBB", "MOT_MOVE_HOMED": "<HBBBB",
+    "MOT_MOVE_COMPLETED": "<HBBBB", "MOT_MOVE_ABSOLUTE": "<Hi", "MOT_GET_USTATUSUPDATE": "<HiHhI",
+    "MOT_SET_EEPROMPARAMS": "<HH", "POL_GET_SET_PARAMS": "<HHHHHH",
+}
 RESERVED = [0x0A, 0x0D, 0x5E, 0x4A, 0x4D, 0x9E]
 
 
@@ -195,6 +213,27 @@ class StreamTransport:
         return r
 
 
+class ChunkTransport(StreamTransport):
+    """The reply arrives in transfers; read(n) receives further transfers until n bytes are buffered."""
+    def __init__(self, chunks):
+        StreamTransport.__init__(self, b"")
+        self.pending = [bytes(c) for c in chunks]
+
+    def read(self, nbytes, timeout=None):
+        while len(self.buf) < nbytes and self.pending:
+            self.buf += self.pending.pop(0)
+        return StreamTransport.read(self, nbytes, timeout)
+
+
+class FakeUsbDev:
+    def __init__(self, vendor, product):
+        self.idVendor, self.idProduct, self.ctrl = vendor, product, []
+
+    def ctrl_transfer(self, *a, **kw):
+        self.ctrl.append(kw)
+        return [1]
+
+
 class FakeOutEp:
     def __init__(self, dev):
         self.dev = dev
@@ -363,6 +402,56 @@ def impl(kind, inp):
         except Exception as e:  # noqa
             res = ["err", err_name(e)]
         return {"writes": [list(w) for w in tr.writes], "res": res}
+    if kind == "usb_qw":
+        from qmi.core import usbtmc
+        inst = usbtmc.Instrument(device=FakeUsbDev(inp["vendor"], inp["product"]))
+        try:
+            inst._handle_vendor_quirks()
+            inst.connected = True
+            inst.bulk_out_ep = FakeOutEp(UsbDevice())
+            inst.last_btag = inp["tag"]
+            inst.write_raw(bytes(inp["data"]))
+            return {"mts": inst.max_transfer_size, "adv": bool(inst.advantest_quirk), "rigol": bool(inst.rigol_quirk),
+                    "ieee": bool(inst.rigol_quirk_ieee_block),
+                    "transfers": [list(t) for t in inst.bulk_out_ep.log], "tag": inst.last_btag}
+        finally:
+            inst.connected = False
+    if kind == "scpi_block_ch":
+        from qmi.core.scpi_protocol import ScpiProtocol
+        tr = ChunkTransport(inp["chunks"])
+        p = ScpiProtocol(tr, response_terminator=bytes(inp["term"]).decode("ascii"))
+        try:
+            res = ["ok", list(p.read_binary_data(read_terminator_flag=inp["flag"]))]
+        except Exception as e:  # noqa
+            res = ["err", err_name(e)]
+        return {"res": res, "rest": list(tr.buf + b"".join(tr.pending))}
+    if kind == "scpi_write":
+        from qmi.core.scpi_protocol import ScpiProtocol
+        tr = ScriptTransport([])
+        p = ScpiProtocol(tr, command_terminator=bytes(inp["cterm"]).decode("ascii"))
+        try:
+            p.write("".join(chr(c) for c in inp["cmd"]))
+            res = ["ok", [list(w) for w in tr.writes]]
+        except Exception as e:  # noqa
+            res = ["err", err_name(e)]
+        return {"res": res, "writes": [list(w) for w in tr.writes]}
+    if kind in ("apt_fields", "apt_pack"):
+        import qmi.instruments.thorlabs.apt_packets as P
+        cls = getattr(P, inp["type"])
+        if kind == "apt_fields":
+            r = cls.from_buffer_copy(bytes(inp["bytes"]))
+            out = []
+            for name, _ in cls._fields_:
+                v = getattr(r, name)
+                out.append(list(v) if isinstance(v, bytes) or hasattr(v, "__len__") else [int(v)])
+            return {"fields": out}
+        obj = cls()
+        for (name, ft), vs in zip(cls._fields_, inp["values"]):
+            if hasattr(ft, "_length_"):
+                setattr(obj, name, bytes(vs) if ft._type_.__name__ == "c_char" else ft(*vs))
+            else:
+                setattr(obj, name, vs[0])
+        return {"bytes": list(bytes(obj))}
     if kind in ("apt_param", "apt_data", "apt_ask"):
         from qmi.instruments.thorlabs.apt_protocol import AptProtocol
         import qmi.instruments.thorlabs.apt_packets as P
@@ -421,6 +510,27 @@ def apt_ref_fields(cls, raw):
         else:
             out.append(struct.unpack_from("<" + code, raw, off)[0])
             off += struct.calcsize("<" + code)
+    return out
+
+
+def apt_spec_codes(name):
+    """one struct code per field of the pinned layout ('s' = char array)"""
+    import re
+    return [c for _, c in re.findall(r"(\d*)([a-zA-Z])", APT_SPEC[name][1:])]
+
+
+def apt_spec_decode(name, raw):
+    import re
+    fmt = APT_SPEC[name]
+    toks = re.findall(r"(\d*)([a-zA-Z])", fmt[1:])
+    vals = list(struct.unpack(fmt, raw[:struct.calcsize(fmt)]))
+    out = []
+    for n, c in toks:
+        n = int(n) if n else 1
+        if c == "s":
+            out.append(list(vals.pop(0).split(b"\0")[0]))
+        else:
+            out.append([vals.pop(0) for _ in range(n)])
     return out
 
 
@@ -608,6 +718,69 @@ def oracle(kind, inp, obs):
                 return None if obs["res"][0] == "err" else "non-ASCII reply decoded"
             return None if obs["res"] == ["ok", body] else "reply %r returned as %r" % (body, obs["res"])
         return None if obs["res"] == ["err", "EInstr"] else "reply without terminator yielded %r" % (obs["res"],)
+    if kind == "usb_qw":
+        data = bytes(inp["data"])
+        trs = [bytes(t) for t in obs["transfers"]]
+        want_mts = 63 if inp["vendor"] == 0x1334 else 1024 * 1024
+        if obs["mts"] != want_mts:
+            return "max_transfer_size %d for vendor 0x%04x (expected %d)" % (obs["mts"], inp["vendor"], want_mts)
+        if obs["adv"] != (inp["vendor"] == 0x1334):
+            return "advantest quirk flag wrong"
+        if obs["rigol"] != (inp["vendor"] == 0x1ab1 and inp["product"] in (0x04ce, 0x0588)):
+            return "rigol quirk flag wrong"
+        if not data:
+            return None if not trs else "transfers written for an empty message"
+        r = ref_usbtmc_device_recv(inp["tag"], trs)
+        if isinstance(r, str):
+            return "Bulk-OUT transfers violate USBTMC: " + r
+        if r[0] != data:
+            return "conforming device reassembles something else than the data sent"
+        for t in trs:
+            if struct.unpack_from("<L", t, 4)[0] > want_mts:
+                return "TransferSize %d above the %d bytes the device accepts" % (struct.unpack_from("<L", t, 4)[0], want_mts)
+        return None
+    if kind == "scpi_block_ch":
+        whole = impl("scpi_block", {"flag": inp["flag"], "term": inp["term"], "stream": [b for c in inp["chunks"] for b in c]})
+        if whole != obs:
+            return "reply split into transfers reads as %r, in one piece as %r" % (
+                (obs["res"][0], len(obs["rest"])), (whole["res"][0], len(whole["rest"])))
+        return oracle("scpi_block", {"flag": inp["flag"], "term": inp["term"],
+                                     "stream": [b for c in inp["chunks"] for b in c]}, obs)
+    if kind == "scpi_write":
+        if any(c > 127 for c in inp["cmd"]):
+            return None if obs["res"] == ["err", "EUniEnc"] and not obs["writes"] else \
+                "non-ASCII command not refused: %r written %r" % (obs["res"], obs["writes"])
+        want = [list(inp["cmd"]) + list(inp["cterm"])]
+        return None if obs["res"] == ["ok", want] else "bytes written differ from command + terminator"
+    if kind in ("apt_fields", "apt_pack"):
+        import qmi.instruments.thorlabs.apt_packets as P
+        cls = getattr(P, inp["type"])
+        fmt = APT_SPEC.get(inp["type"])
+        if kind == "apt_fields":
+            raw = bytes(inp["bytes"])
+            if fmt is None:
+                want = [v if isinstance(v, list) else [v] for v in apt_ref_fields(cls, raw)]
+            else:
+                want = apt_spec_decode(inp["type"], raw)
+            if obs["fields"] != want:
+                k = next((i for i, (a, b) in enumerate(zip(obs["fields"], want)) if a != b), -1)
+                return "field #%d read as %r, the documented layout gives %r" % (
+                    k, obs["fields"][k] if k >= 0 else len(obs["fields"]), want[k] if k >= 0 else len(want))
+            return None
+        if fmt is None:
+            return None
+        flat = []
+        for vs, code in zip(inp["values"], apt_spec_codes(inp["type"])):
+            flat += [bytes(vs)] if code == "s" else list(vs)
+        try:
+            want = list(struct.pack(fmt, *flat))
+        except struct.error as e:
+            return "a value the class accepts does not fit the documented field type (%s)" % e
+        if obs["bytes"] != want:
+            k = next((i for i, (a, b) in enumerate(zip(obs["bytes"], want)) if a != b), min(len(want), len(obs["bytes"])))
+            return "structure bytes differ from the documented layout at offset %d (%r vs %r)" % (
+                k, obs["bytes"][k:k + 4], want[k:k + 4])
+        return None
     if kind == "apt_param":
         if len(obs["writes"]) != 1 or len(obs["writes"][0]) != 6:
             return "header-only command is not one 6-byte write"
@@ -659,6 +832,17 @@ def oracle(kind, inp, obs):
 # Coq case terms
 # =========================================================================================
 
+APT_LAYOUTS = {}      # packet name -> layout (list of field dicts), filled from the translator in run()/replay()
+
+
+def load_layouts():
+    packets, errors = T.translate()
+    APT_LAYOUTS.clear()
+    for p in packets:
+        APT_LAYOUTS[p["name"]] = p["layout"]
+    return packets, errors
+
+
 def coq_case(kind, inp, obs):
     if kind == "ib_enc":
         return "CIbEnc %s %s %s %s %s %s" % (cN(inp["d"]), cN(inp["s"]), cN(inp["t"]), cN(inp["g"]),
@@ -687,6 +871,23 @@ def coq_case(kind, inp, obs):
         rep = "RTimeout" if inp["reply"] is None else "(RMsg %s)" % cbytes(inp["reply"])
         return "CScpiAsk %s %s %s %s %s %s" % (cbytes(inp["cmd"]), cbytes(inp["cterm"]), cbytes(inp["rterm"]), rep,
                                               c_bl(obs["writes"]), c_res_bytes(obs["res"]))
+    if kind == "usb_qw":
+        return "CUsbQuirkW %s %s %s %s %s %s %s %s %s %s" % (
+            cN(inp["vendor"]), cN(inp["product"]), cbytes(inp["data"]), cN(inp["tag"]), cN(obs["mts"]),
+            cbool(obs["adv"]), cbool(obs["rigol"]), cbool(obs["ieee"]), c_bl(obs["transfers"]), cN(obs["tag"]))
+    if kind == "scpi_block_ch":
+        return "CScpiBlockCh %s %s %s %s %s" % (cbool(inp["flag"]), cbytes(inp["term"]), c_bl(inp["chunks"]),
+                                                c_res_bytes(obs["res"]), cbytes(obs["rest"]))
+    if kind == "scpi_write":
+        r = obs["res"]
+        return "CScpiWrite %s %s %s" % (cbytes(inp["cmd"]), cbytes(inp["cterm"]),
+                                        "(Ok %s)" % c_bl(r[1]) if r[0] == "ok" else c_err(r[1]))
+    if kind in ("apt_fields", "apt_pack"):
+        lay = T.coq_layout(APT_LAYOUTS[inp["type"]])
+        zl = lambda vss: clist([clist([cZ(v) for v in vs]) for vs in vss])
+        if kind == "apt_fields":
+            return "CAptFields %s %s %s" % (lay, cbytes(inp["bytes"]), zl(obs["fields"]))
+        return "CAptPack %s %s %s" % (lay, zl(inp["values"]), cbytes(obs["bytes"]))
     if kind == "apt_param":
         w = obs["writes"][0] if len(obs["writes"]) == 1 else [999]
         return "CAptParam %s %s %s %s %s %s" % (cN(inp["dev"]), cN(inp["host"]), cN(inp["id"]), cN(inp["p1"]),
@@ -1032,6 +1233,67 @@ def gen_cases(ck):
             if 0.5 <= r < 0.6:
                 stream, b = stream[:rng.randrange(0, len(stream))], "truncated"
         add("apt_ask", {"type": tn, "stream": stream}, "apt_ask:" + b)
+    # ---------------- second round ----------------
+    # SCPI block split into transfers: re-use the block cases generated above
+    blocks = [c for c in cases if c[0] == "scpi_block"]
+    for kind, inp, bucket, nt in rng.sample(blocks, min(len(blocks), 160 * S)):
+        st = inp["stream"]
+        style = rng.choice(["bytes", "header", "random", "random", "empties"])
+        if style == "bytes":
+            chunks = [[b] for b in st]
+        elif style == "header":          # cuts inside '#', digit count, length digits
+            k = rng.randint(1, min(len(st), 6)) if st else 0
+            chunks = [[b] for b in st[:k]] + ([st[k:]] if st[k:] else [])
+        else:
+            cuts = sorted(rng.randrange(0, len(st) + 1) for _ in range(rng.randint(1, 6)))
+            chunks, prev = [], 0
+            for c in cuts + [len(st)]:
+                chunks.append(st[prev:c])
+                prev = c
+            if style == "random":
+                chunks = [c for c in chunks if c]
+        add("scpi_block_ch", {"flag": inp["flag"], "term": inp["term"], "chunks": chunks},
+            "scpi_block_ch:%s:%s" % (style, bucket.split(":", 1)[1].split(":")[0]), nt)
+    for i in range(60 * S):
+        cmd = [ord(c) for c in rng.choice(["*RST", "OUTP ON", "", ":DISP:TEXT 'x'", "A" * 30])]
+        if rng.random() < 0.4:
+            cmd.insert(rng.randrange(len(cmd) + 1), rng.choice([128, 176, 181, 233, 255, 256, 8364, 0x1F600]))
+        add("scpi_write", {"cmd": cmd, "cterm": rng.choice([[10], [13, 10], [13], []])},
+            "scpi_write:" + ("non-ascii" if any(c > 127 for c in cmd) else "ascii"))
+    # vendor quirks + write_raw
+    for i in range(70 * S):
+        vendor, product = rng.choice([(0x1334, 0x0000), (0x1334, 0x04ce), (0x1334, rng.randrange(65536)),
+                                      (0x1ab1, 0x04ce), (0x1ab1, 0x0588), (0x1ab1, 0x0001), (0x1313, 0x8078),
+                                      (0x0957, 0x1755), (rng.randrange(65536), rng.randrange(65536))])
+        n = rng.choice([0, 1, 62, 63, 64, 65, 125, 126, 127, 128, 189, 190, rng.randrange(0, 200)])
+        add("usb_qw", {"vendor": vendor, "product": product, "data": gen_bytes(rng, n, 0.1),
+                       "tag": rng.choice([0, 1, 253, 254, 255])},
+            "usb_qw:" + ("advantest" if vendor == 0x1334 else "rigol" if vendor == 0x1ab1 else "other"), n > 0)
+    # APT packets field by field
+    def rand_val(f):
+        w = f["width"]
+        if f["kind"] == "FU":
+            return rng.choice([0, 1, (1 << (8 * w)) - 1, 1 << (8 * w - 1), (1 << (8 * w - 1)) - 1, rng.randrange(1 << (8 * w))])
+        if f["kind"] == "FS":
+            h = 1 << (8 * w - 1)
+            return rng.choice([0, 1, -1, h - 1, -h, rng.randrange(-h, h)])
+        return rng.choice([0, 65, 66, 255, rng.randrange(256)])
+    for i in range(150 * S if APT_LAYOUTS else 0):
+        tn = rng.choice(sorted(APT_LAYOUTS))
+        lay = APT_LAYOUTS[tn]
+        size = sum(f["width"] * f["count"] for f in lay)
+        raw = gen_bytes(rng, size, 0.05) if rng.random() < 0.6 else [rng.choice([0, 0x7F, 0x80, 0xFF]) for _ in range(size)]
+        add("apt_fields", {"type": tn, "bytes": raw}, "apt_fields:" + tn)
+    for i in range(150 * S if APT_LAYOUTS else 0):
+        tn = rng.choice(sorted(APT_LAYOUTS))
+        vals = []
+        for f in APT_LAYOUTS[tn]:
+            if f["kind"] == "FC":     # ctypes' char-array setter stops at a NUL: text + NUL padding only
+                k = rng.randint(0, f["count"])
+                vals.append([rng.randint(1, 255) for _ in range(k)] + [0] * (f["count"] - k))
+            else:
+                vals.append([rand_val(f) for _ in range(f["count"])])
+        add("apt_pack", {"type": tn, "values": vals}, "apt_pack:" + tn)
     return cases
 
 
@@ -1039,7 +1301,35 @@ def gen_cases(ck):
 
 def run(ck):
     ck.theory_dir = THEORY
-    ck.build_theory(THEORY)
+    # ---- translator: APT packet layouts from the live ctypes classes (fail closed) ---------------
+    packets, terrs = load_layouts()
+    for n, e in terrs:
+        ck.report("tie:translator:%s" % n, "t_c15_apt cannot translate apt_packets.%s (broken tie): %s" % (n, e),
+                  {"broken": "translator t_c15_apt", "class": n, "error": e}, found_input=False)
+    os.makedirs(os.path.dirname(GEN), exist_ok=True)
+    T.emit(GEN, packets, True)
+    t0 = time.time()
+    ck.build_theory(THEORY, extra_gen=[GEN])
+    gen_ok = os.path.exists(GEN + "o") and os.path.getmtime(GEN + "o") >= t0 - 1 and \
+        "generated obligation file %s" % GEN not in ck.proof_log
+    ok_flags = [True] * len(packets)
+    if not gen_ok:
+        ok_flags = []
+        for p in packets:
+            out = ck.model_eval("C15.Corr", "layout_wf %s %s" % (T.coq_layout(p["layout"]), cN(p["sizeof"])))
+            ok_flags.append(out.rstrip().endswith("= true : bool"))
+    ck.add_generated_obligations(len(packets), sum(ok_flags), [p["name"] for p, ok in zip(packets, ok_flags) if not ok])
+    ck.coverage["apt_packet_layouts"] = {p["name"]: {"header_only": p["header_only"], "message_id": p["message_id"],
+                                                     "sizeof": p["sizeof"], "layout": T.coq_layout(p["layout"])}
+                                         for p in packets}
+    for n, (ho_, mid_, sz_) in sorted(apt_types().items()):
+        if n in APT_SPEC and sz_ != struct.calcsize(APT_SPEC[n]):
+            ck.report("spec:apt-sizeof:%s" % n, "sizeof(%s) = %d, the documented packet has %d bytes" % (
+                n, sz_, struct.calcsize(APT_SPEC[n])), {"broken": "pinned APT_SPEC layout", "class": n}, found_input=False)
+    for p in packets:          # the (HEADER_ONLY, MESSAGE_ID, sizeof) the ask cases use must be the translated ones
+        if apt_types().get(p["name"]) != (p["header_only"], p["message_id"], p["sizeof"]):
+            ck.report("tie:translator:%s:meta" % p["name"], "translated packet metadata differ from the class attributes",
+                      {"broken": "translator t_c15_apt", "class": p["name"]}, found_input=False)
     ck.trusted = [
         "Coq 8.16.1 kernel (vm_compute evaluates the models on cases and the finite CRC sweeps; no native_compute)",
         "hand-written models theories/C15/Model{IB,Usbtmc,T2,Scpi,Apt}.v, tied to /repo by this run's correspondence",
@@ -1048,6 +1338,8 @@ def run(ck):
         "reference codecs of the oracle: binascii.crc_hqx, struct, printf-style block header",
         "numpy uint32/uint64 vector arithmetic (cumsum, masking, wrap-around) — trusted, compared",
         "ctypes packed little-endian structure layout and silent integer truncation — trusted, compared",
+        "translator harness/translators/t_c15_apt.py (ctypes _fields_ -> Coq layout tables, fail closed) and the pinned "
+        "APT_SPEC table of documented packet layouts used by the oracle",
     ]
     ck.assumptions = [
         "USBTMC: quirk flags (Rigol/Advantest) off, no USBError raised by the endpoints, term_char None",
@@ -1100,6 +1392,10 @@ def run(ck):
 
 def replay(rep):
     c = rep["case"]
+    if "kind" not in c:
+        print("no concrete case stored (broken tie / proof obligation):", c)
+        return 1
+    load_layouts()
     kind, inp = c["kind"], c["in"]
     print("kind:", kind)
     print("input:", inp)
